@@ -86,7 +86,30 @@ TGen ==
                /\ IF lenient THEN TRUE ELSE Check(t, l, "TextAgain", e.t2 = "ok")
     /\ Adv
 
+\* ---- fresh-interpreter scenario (the registry of implementations is process-global: the order of
+\* first lookups of a type - in a class without implementation first, or in its home class first -
+\* is an input; the clauses are the same)
+\* the RDATA written in the generic form in a class that has no implementation for the type
+TForeign ==
+    /\ e.op = "foreign"
+    /\ Check(t, l, "GenericParse", e.parse = "ok")
+    /\ Check(t, l, "GenericWire", e.wire1 = e.w)
+    /\ Check(t, l, "ForeignFromWire", e.wirew = e.w)
+    /\ IF Ty \in NoTextForm THEN TRUE
+       ELSE Check(t, l, "TextAgain", e.t2 = "ok") /\ Check(t, l, "WireEq", e.wire2 = e.w)
+    /\ UNCHANGED rvars /\ Adv
+\* a text that is known to denote value w (to_text() of the record decoded from w, produced in another
+\* process) parses, encodes to w and can produce text
+TKnownText ==
+    /\ e.op = "ktext"
+    /\ IF Ty \in NoTextForm \/ Lenient(Ty, e.vec) THEN TRUE
+       ELSE /\ Check(t, l, "ParseOk", e.parse = "ok")
+            /\ Check(t, l, "EncodeOk", e.enc = "ok")
+            /\ Check(t, l, "WireEq", e.wire1 = e.w)
+            /\ Check(t, l, "TextAgain", e.t2 = "ok")
+    /\ UNCHANGED rvars /\ Adv
+
 TraceNext == /\ l <= Len(Ev(t))
-             /\ (TSrcWire \/ TSrcText \/ TRt \/ TGen)
+             /\ (TSrcWire \/ TSrcText \/ TRt \/ TGen \/ TForeign \/ TKnownText)
 Accepted == Accepting(t, l)
 =============================================================================
